@@ -6,7 +6,7 @@
 #include <smooth/optim.hpp>
 namespace vopt {
 // in = [J (R x C row-major) | d (C) | r (R) | lambda]; out = [dx (C) | dphi]
-template<int R, int C, int MODE>  // MODE 0 static dense, 1 dynamic dense, 2 sparse
+template<int R, int C, int MODE>  // MODE 0 static dense, 1 dynamic dense, 2 sparse (column-major), 3 sparse row-major, 4 dynamic dense row-major
 void ldlt(const double * in, double * out)
 {
   Eigen::Matrix<double, R, C> Jd;
@@ -22,6 +22,17 @@ void ldlt(const double * in, double * out)
     for (int j = 0; j < C; ++j) *out++ = dx(j);
   } else if constexpr (MODE == 1) {
     Eigen::MatrixXd J = Jd; Eigen::VectorXd dd = d, rr = r;
+    auto dx = smooth::solve_linear_ldlt(J, dd, rr, lambda, dphi);
+    for (int j = 0; j < C; ++j) *out++ = dx(j);
+  } else if constexpr (MODE == 3) {
+    Eigen::SparseMatrix<double, Eigen::RowMajor> J(R, C);
+    for (int i = 0; i < R; ++i) for (int j = 0; j < C; ++j) J.insert(i, j) = Jd(i, j);
+    J.makeCompressed();
+    Eigen::VectorXd dd = d, rr = r;
+    auto dx = smooth::solve_linear_ldlt(J, dd, rr, lambda, dphi);
+    for (int j = 0; j < C; ++j) *out++ = dx(j);
+  } else if constexpr (MODE == 4) {
+    Eigen::Matrix<double, -1, -1, Eigen::RowMajor> J = Jd; Eigen::VectorXd dd = d, rr = r;
     auto dx = smooth::solve_linear_ldlt(J, dd, rr, lambda, dphi);
     for (int j = 0; j < C; ++j) *out++ = dx(j);
   } else {
